@@ -362,6 +362,95 @@ async def run_all(scenarios):
     return res
 
 
+def _plain(v, names_of):
+    """Observation value -> plain Python value (sentinels become 'v:<param>')."""
+    if isinstance(v, Obj):
+        return 'v:%s' % names_of.get(v.n, '#%d' % v.n)
+    if v is None or isinstance(v, (bool, int, str, bytes)):
+        return v
+    if isinstance(v, float):
+        return repr(v)
+    if isinstance(v, list):
+        return [_plain(x, names_of) for x in v]
+    if isinstance(v, tuple):
+        return tuple(_plain(x, names_of) for x in v)
+    if isinstance(v, dict):
+        return dict((str(_plain(k, names_of)), _plain(x, names_of)) for k, x in v.items())
+    return 'obj:%s' % type(v).__name__
+
+
+def _parity_trace(o, names_of):
+    if o['kind'] == 'raise':
+        return ['raise', o['exn']]
+    if o['kind'] == 'other':
+        return ['calls', o['n']]
+    out = ['call', o['m']]
+    for k, v in o['bound']:
+        out += [k, _plain(v, names_of)]
+    return out + ['result-passed-back', bool(o['same'])]
+
+
+def parity_traces(rng, n):
+    """For C14: n call shapes (helper x argument subset x values), each run on the threaded class
+    and on its asyncio twin (Namespace/AsyncNamespace, ClientNamespace/AsyncClientNamespace) with
+    the recording driver.  Returns [(kind, scenario_repr, trace_sync, trace_async)]; a trace is a
+    flat list of plain values: 'call', method, name1, value1, ..., 'result-passed-back', bool  |
+    'raise', exception class  |  'calls', number.  Shapes only use parameters that both twins
+    have (ClientNamespace.send has a vestigial `room` that AsyncClientNamespace.send lacks).
+    No chk.*; every choice comes from `rng`."""
+    warnings.simplefilter('ignore', RuntimeWarning)
+    world = World()
+    twins = [(world.row('Namespace'), world.row('AsyncNamespace')),
+             (world.row('ClientNamespace'), world.row('AsyncClientNamespace'))]
+    plan = []
+    for _ in range(n):
+        srow, arow = twins[0] if rng.random() < 0.7 else twins[1]
+        m = rng.choice(srow['methods'])
+        sig = real_signature(getattr(srow['H'], m))
+        asig = real_signature(getattr(arow['H'], m))
+        if sig is None or asig is None:
+            continue
+        common_names = set(p[0] for p in asig)
+        names = [p[0] for p in sig]
+        cand = [(k, kws) for k, kws in shapes(sig)
+                if all(x in common_names for x in names[:k] + kws)]
+        k, kws = rng.choice(cand)
+        kw_order = list(kws)
+        rng.shuffle(kw_order)
+        values = dict((x, value_for(x, names.index(x), 'mixed', rng)) for x in names[:k] + kws)
+        reg_ns = rng.choice(REG_NAMESPACES)
+        reg_mode = rng.choice(['register', 'set'])
+        plan.append((srow, arow, m, names, k, kw_order, values, reg_ns, reg_mode))
+
+    async def go():
+        out = []
+        for srow, arow, m, names, k, kw_order, values, reg_ns, reg_mode in plan:
+            names_of = dict((i + 1, x) for i, x in enumerate(names))
+            traces = []
+            for row in (srow, arow):
+                pos_vals = [clone_value(values[x]) for x in names[:k]]
+                kw_items = [(x, clone_value(values[x])) for x in kw_order]
+                self_ns, o = await observe(row, m, reg_ns, reg_mode, pos_vals, kw_items)
+                traces.append(['registered-as', self_ns] + _parity_trace(o, names_of))
+            scen = '%s/%s.%s(%s) registered %r via %s' % (
+                srow['hcls'], arow['hcls'], m,
+                ', '.join(['<%s>=%r' % (x, _plain(values[x], names_of)) for x in names[:k]] +
+                          ['%s=%r' % (x, _plain(values[x], names_of)) for x in kw_order]),
+                reg_ns, reg_mode)
+            out.append(('namespace', scen, traces[0], traces[1]))
+        return out
+    return asyncio.run(go())
+
+
+def clone_value(v):
+    """Fresh copy of a mutable literal so that the two twins cannot influence each other."""
+    if isinstance(v, list):
+        return [clone_value(x) for x in v]
+    if isinstance(v, dict):
+        return dict((k, clone_value(x)) for k, x in v.items())
+    return v
+
+
 def bind_cases(chk, world):
     """bind_call against CPython's own binding, on the real signatures of the underlying
     methods (the recorder's inner functions) with arbitrary calls, valid or not."""
